@@ -66,10 +66,10 @@ fn run(input: RunInput) -> ScenFuture {
         });
         let svc = Svc::new(&w, plan);
         let h = svc.handle();
-        let server = w.start_node(w.spec(2, cfg_s), svc).unwrap();
+        let server = w.start_node(w.spec_exact(2, cfg_s), svc).unwrap();
         // the defaults must take effect on every RPC made through a network, however it was built:
         // with or without a user-supplied outbound request layer
-        let mut spec_c = w.spec(1, cfg_c);
+        let mut spec_c = w.spec_exact(1, cfg_c);
         spec_c.user_outbound_layer = w.flag("caller_has_user_outbound_layer", 0.4);
         let client = w.start_node(spec_c, Svc::echo(&w)).unwrap();
         if client.net.connect_with_peer_id(server.addr, server.peer_id).await.is_err() {
